@@ -189,7 +189,8 @@ def rewrite(plan, case, rng, base_machine):
         for d in list((sd.get("after") or {})):
             tlist(sd["after"], d, node)
             if isinstance(d, str) and d.isdigit() and rng.random() < 0.5:
-                sd["after"][int(d)] = sd["after"].pop(d)
+                # (in place: the declaration order of the delays is part of the machine)
+                sd["after"] = {(int(k) if k == d else k): v for k, v in sd["after"].items()}
                 hit("delay-int")
         inv = sd.get("invoke")
         if isinstance(inv, dict):
